@@ -19,10 +19,29 @@ from harness import hlib  # noqa: E402
 from harness import srun_matrix as M  # noqa: E402
 
 
+def _preload():
+    """Import, in the parent, everything a task needs: the forked children inherit the loaded modules, so no import runs under a
+    task's wall-clock limit (on a loaded machine the import of numpy.random alone has exceeded a 3 s limit)."""
+    from harness import srun_core  # noqa: F401
+    import numpy.random  # noqa: F401
+    import importlib
+    for m in ('opytimizer', 'opytimizer.core.function', 'opytimizer.spaces.search', 'opytimizer.spaces.hyper', 'opytimizer.spaces.tree',
+              'opytimizer.utils.history', 'opytimizer.core.agent', 'opytimizer.math.hypercomplex'):
+        try:
+            importlib.import_module(m)
+        except Exception:  # noqa: BLE001   (a broken module is the task's finding, not the pool's)
+            pass
+
+
 def _child(cfg, conn):
     try:
         from harness import srun_core
-        res = srun_core.run_task(cfg)
+        try:
+            res = srun_core.run_task(cfg)
+        except srun_core.SoftTimeout:
+            # the limit fired outside the observed task (start-up or reporting on a loaded machine): not a verdict on the library;
+            # handled like any timeout -- re-run alone with a longer limit, dropped as load-induced if it does not repeat
+            res = {'violations': [], 'stats': {'status': 'timeout', 'outcome': {'status': 'timeout', 'sites': []}}}
     except BaseException as ex:  # noqa: BLE001
         import traceback
         res = {'violations': [], 'stats': {'status': 'harness-error', 'error': '%s: %s' % (type(ex).__name__, ex), 'tb': traceback.format_exc()[-1500:]}}
@@ -35,6 +54,7 @@ def _child(cfg, conn):
 def run_pool(cfgs, procs=12, hard_extra=6.0):
     """One forked process per configuration (so a hang or a crash of the interpreter cannot take others down)."""
     ctx = mp.get_context('fork')
+    _preload()
     results = [None] * len(cfgs)
     running = {}
     nxt = 0
